@@ -8,9 +8,11 @@ import (
 
 	"github.com/hashicorp/serf/coordinate"
 
+	"github.com/hashicorp/consul/agent/netutil"
 	"github.com/hashicorp/consul/agent/structs"
 	"github.com/hashicorp/consul/api"
 	"github.com/hashicorp/consul/internal/verifrt"
+	"github.com/hashicorp/consul/types"
 )
 
 // C01: two replicas applying the same commands from the same state end with
@@ -27,7 +29,9 @@ var vReplicatedTables = []string{tableIndex, tableNodes, tableServices, tableChe
 type vCmdResult struct {
 	ok  bool
 	err bool
+	msg string // the error text is part of the result a client sees
 	n   uint64
+	ls  []string
 }
 
 func vSameState(a, b *Store) bool {
@@ -52,7 +56,13 @@ type vLogArgs struct {
 
 func vApplyLog(s *Store, a vLogArgs) []vCmdResult {
 	var out []vCmdResult
-	rec := func(ok bool, err error, n uint64) { out = append(out, vCmdResult{ok, err != nil, n}) }
+	rec := func(ok bool, err error, n uint64) {
+		r := vCmdResult{ok: ok, err: err != nil, n: n}
+		if err != nil {
+			r.msg = err.Error()
+		}
+		out = append(out, r)
+	}
 	switch a.kind {
 	case 0: // CA roots: set, then rotate the active root out
 		ok, err := s.CARootSetCAS(a.idx, 0, []*structs.CARoot{{ID: a.rootID, Name: "x", Active: true}})
@@ -90,12 +100,41 @@ func vApplyLog(s *Store, a vLogArgs) []vCmdResult {
 		rec(true, s.SystemMetadataSet(a.idx+4, &structs.SystemMetadataEntry{Key: "k" + a.key, Value: "v"}), 0)
 		n, err := s.CAIncrementProviderSerialNumber(a.idx + 5)
 		rec(true, err, n)
+	case 5: // a session bound to several checks, some of them critical or not registered: rejected with the same error everywhere
+		rec(true, s.EnsureNode(a.idx, &structs.Node{Node: "n1", Address: "10.0.0.1"}), 0)
+		st := func(critical bool) string {
+			if critical {
+				return api.HealthCritical
+			}
+			return api.HealthPassing
+		}
+		rec(true, s.EnsureCheck(a.idx+1, &structs.HealthCheck{Node: "n1", CheckID: "c1", Status: st(a.val&1 == 1)}), 0)
+		rec(true, s.EnsureCheck(a.idx+2, &structs.HealthCheck{Node: "n1", CheckID: "c2", Status: st(a.val&2 == 2)}), 0)
+		rec(true, s.SessionCreate(a.idx+3, &structs.Session{ID: vSessA, Node: "n1", NodeChecks: []string{"c1", "c2"}, Checks: []types.CheckID{"c3"}}), 0)
+		rec(true, s.SessionCreate(a.idx+4, &structs.Session{ID: vSessA, Node: "n1", NodeChecks: []string{"c2", "c1"}}), 0)
+	case 6: // manual virtual IPs moved from two services to a third: the list of services they were taken from
+		rec(true, s.SystemMetadataSet(a.idx, &structs.SystemMetadataEntry{Key: structs.SystemMetadataVirtualIPsEnabled, Value: "true"}), 0)
+		for i, name := range []string{"a", "b", "c"} {
+			rec(true, s.EnsureRegistration(a.idx+1+uint64(i), &structs.RegisterRequest{Node: "n1", Address: "10.0.0.1",
+				Service: &structs.NodeService{ID: name, Service: name, Port: 80, Connect: structs.ServiceConnect{Native: true}}}), 0)
+		}
+		psn := func(n string) structs.PeeredServiceName { return structs.PeeredServiceName{ServiceName: structs.NewServiceName(n, nil)} }
+		ok, _, err := s.AssignManualServiceVIPs(a.idx+4, psn("a"), []string{"1.1.1.1"})
+		rec(ok, err, 0)
+		ok, _, err = s.AssignManualServiceVIPs(a.idx+5, psn("b"), []string{"2.2.2.2"})
+		rec(ok, err, 0)
+		ok, from, err := s.AssignManualServiceVIPs(a.idx+6, psn("c"), []string{"1.1.1.1", "2.2.2.2"})
+		rec(ok, err, uint64(len(from)))
+		for _, f := range from {
+			out[len(out)-1].ls = append(out[len(out)-1].ls, f.ServiceName.Name)
+		}
 	}
 	return out
 }
 
 func VerifC01_SameLogSameState() {
-	a := vLogArgs{kind: verifrt.Choice("log", 5), idx: verifrt.U64("idx"), key: vKey("key", 1), val: verifrt.U8("val"),
+	netutil.GetAgentBindAddrFunc = netutil.GetMockGetAgentBindAddrFunc("0.0.0.0")
+	a := vLogArgs{kind: verifrt.Choice("log", 7), idx: verifrt.U64("idx"), key: vKey("key", 1), val: verifrt.U8("val"),
 		lockDelay: time.Duration(verifrt.Choice("lockdelay", 2)) * 15 * time.Second, rootID: verifrt.StrN("root", 1), cidx: verifrt.U64("cidx")}
 	verifrt.Assume(a.idx >= 1 && a.idx < 1<<62)
 	// names that pass through lower-casing indexers are ASCII (the engine does not model Unicode case mapping)
